@@ -16,7 +16,10 @@ Oracle     ref model = (rows, set of admissible positions, arraysize).  Fetches 
            beanquery does not): the model admits both and afterwards tracks the set of positions
            consistent with what the implementation shows (weakest reading).
 Canonical  canon(real cursor) = every attribute in vars(cursor) except the connection back-reference
-           (which no observation depends on), by value;  model part = (size, positions, arraysize).
+           (which no observation depends on), by value, + how the cursor object was obtained (cursor() or
+           connection.execute()) + the identity relations between the two cursors and their row lists
+           (aliasing changes the futures of a state, so states differing in it must not be merged);
+           model part = (size, positions, arraysize).
 The model's fetch sequences are additionally cross-checked against sqlite3 cursors.
 """
 import itertools
@@ -76,6 +79,8 @@ class OneCursor:
         self.m = Model()
         self.nobs = 0
         self.light = False     # True while replaying an already-checked prefix: skip the description checks
+        self.origin = 'cursor()'    # how the real cursor object was obtained: part of the canonical state, because
+                                    # objects handed out by Connection.execute() may be shared (aliasing changes futures)
 
     # -- observations compared after every step ------------------------------------------
     def observe(self, out):
@@ -155,6 +160,7 @@ class OneCursor:
             # Connection.execute(): a NEW cursor of the same connection replaces this one
             n = ev[1]
             cur = self.real = self.conn.execute(stmt_for(n))
+            self.origin = 'connection.execute()'
             if not isinstance(cur, beanquery.Cursor):
                 out.append(('connection-execute-return', f'Connection.execute() returned {cur!r}'))
             m.n, m.rows, m.pos, m.arraysize = n, expected_rows(n), frozenset([0]), 1
@@ -223,7 +229,7 @@ class OneCursor:
 
     def canon(self):
         real = tuple(sorted((k, repr(v)) for k, v in vars(self.real).items() if k != '_context'))
-        return (real, self.m.key())
+        return (real, self.m.key(), self.origin)
 
 
 def make_conn(sizes):
@@ -290,7 +296,10 @@ class Product2:
             self.cs[i].light = False
 
     def canon(self):
-        return tuple(c.canon() if c else None for c in self.cs)
+        # identity relations between the live objects are part of the state (aliased cursors, shared row lists)
+        alias = tuple(a is not None and b is not None and x(a) is x(b)
+                      for a, b in [tuple(self.cs)] for x in (lambda c: c.real, lambda c: c.real._rows if c.real._rows is not None else c))
+        return tuple(c.canon() if c else None for c in self.cs) + (alias,)
 
 
 def alphabet(sizes, ks, asz):
@@ -383,24 +392,32 @@ def replay(case):
     return [Violation(fp, msg, case) for fp, msg in out]
 
 
+def _search(args):
+    mode, sizes, events, second_before, cap = args
+    if mode == 'one':
+        return bfs(lambda: Product1(sizes), events)
+    return bfs(lambda: Product2(sizes, second_before), events, max_states=cap)
+
+
 def run(ctx):
     sizes1 = [0, 1, 2, 3, 5]
     ks1 = [1, 2, 3, 10]
     asz1 = [1, 2, 3]
     ev1 = alphabet(sizes1, ks1, asz1)
-    st1 = bfs(lambda: Product1(sizes1), ev1)
-    violations = make_violations(st1, 'one', {'sizes': sizes1})
-
     # two cursors of one connection
     sizes2 = ctx.pick([0, 2, 3], [0, 1, 2, 3])
     ks2 = ctx.pick([2], [1, 2, 10])
     asz2 = ctx.pick([2], [1, 2])
     sub = alphabet(sizes2, ks2, asz2)
     ev2 = [(i, e) for i in (0, 1) for e in sub]
-    st2s = []
-    for second_before in (True, False):
-        st2 = bfs(lambda: Product2(sizes2, second_before), ev2, max_states=ctx.pick(60000, 400000))
-        st2s.append(st2)
+    cap = ctx.pick(60000, 400000)
+    # the three searches are independent: run them in three processes
+    import multiprocessing
+    with multiprocessing.get_context('fork').Pool(3) as pool:
+        st1, st2a, st2b = pool.map(_search, [('one', sizes1, ev1, None, cap), ('two', sizes2, ev2, True, cap), ('two', sizes2, ev2, False, cap)])
+    st2s = [st2a, st2b]
+    violations = make_violations(st1, 'one', {'sizes': sizes1})
+    for st2, second_before in zip(st2s, (True, False)):
         violations += make_violations(st2, 'two', {'sizes': sizes2, 'second_before': second_before})
 
     # model vs sqlite3 on every history that reached a new state of the one-cursor search
